@@ -124,7 +124,15 @@ async fn yield_k(k: u32) {
 }
 
 /// Writer task: executes the write-side ops of one stream half.
-pub async fn run_writer(ctx: Ctx, node: usize, conn: usize, key: u64, mut w: UtpStreamWriteHalf, ops: Vec<WOp>) {
+/// Read progress shared between the reader and writer task of one stream side.
+#[derive(Default)]
+pub struct ReadProgress {
+    pub bytes: std::sync::atomic::AtomicU64,
+    pub finished: std::sync::atomic::AtomicBool,
+    pub notify: tokio::sync::Notify,
+}
+
+pub async fn run_writer(ctx: Ctx, node: usize, conn: usize, key: u64, mut w: UtpStreamWriteHalf, ops: Vec<WOp>, prog: Arc<ReadProgress>) {
     let mut off: u64 = 0;
     let mut buf: Vec<u8> = Vec::new();
     let mut failed = false;
@@ -184,6 +192,13 @@ pub async fn run_writer(ctx: Ctx, node: usize, conn: usize, key: u64, mut w: Utp
             WOp::CutNet { dir, drop_in_flight } => {
                 ctx.net.cut_now(dir, drop_in_flight);
             }
+            WOp::WaitRead(n) => loop {
+                let notified = prog.notify.notified();
+                if prog.bytes.load(Ordering::SeqCst) >= n || prog.finished.load(Ordering::SeqCst) {
+                    break;
+                }
+                notified.await;
+            },
         }
     }
     let _ = failed;
@@ -194,7 +209,8 @@ pub async fn run_writer(ctx: Ctx, node: usize, conn: usize, key: u64, mut w: Utp
 }
 
 /// Reader task: executes the read-side ops of one stream half, checking content online.
-pub async fn run_reader(ctx: Ctx, node: usize, conn: usize, key: u64, mut r: UtpStreamReadHalf, ops: Vec<ROp>, start: u64) {
+pub async fn run_reader(ctx: Ctx, node: usize, conn: usize, key: u64, mut r: UtpStreamReadHalf, ops: Vec<ROp>, start: u64, prog: Arc<ReadProgress>) {
+    prog.bytes.store(start, Ordering::SeqCst);
     let mut off: u64 = start;
     let mut buf: Vec<u8> = Vec::new();
     let mut buf2: Vec<u8> = Vec::new();
@@ -258,6 +274,8 @@ pub async fn run_reader(ctx: Ctx, node: usize, conn: usize, key: u64, mut r: Utp
                             ctx.log(node, conn, Half::R, AppKind::Read { off }, AppRes::Ok(k));
                             off += k as u64;
                             remaining = remaining.saturating_sub(k as u64);
+                            prog.bytes.store(off, Ordering::SeqCst);
+                            prog.notify.notify_waiters();
                         }
                         Err(e) => {
                             ctx.log(node, conn, Half::R, AppKind::Read { off }, AppRes::Err(e.to_string()));
@@ -271,11 +289,15 @@ pub async fn run_reader(ctx: Ctx, node: usize, conn: usize, key: u64, mut r: Utp
             ROp::Drop => {
                 ctx.log(node, conn, Half::R, AppKind::DropHalf, AppRes::Dropped);
                 drop(r);
+                prog.finished.store(true, Ordering::SeqCst);
+                prog.notify.notify_waiters();
                 ctx.task_done();
                 return;
             }
         }
     }
+    prog.finished.store(true, Ordering::SeqCst);
+    prog.notify.notify_waiters();
     ctx.task_done();
     std::future::pending::<()>().await;
     drop(r);
@@ -283,8 +305,9 @@ pub async fn run_reader(ctx: Ctx, node: usize, conn: usize, key: u64, mut r: Utp
 
 fn spawn_sides(ctx: &Ctx, node: usize, conn: usize, wkey: u64, rkey: u64, stream: UtpStream, side: &Side) {
     let (r, w) = stream.split();
-    tokio::spawn(run_writer(ctx.clone(), node, conn, wkey, w, side.w.clone()));
-    tokio::spawn(run_reader(ctx.clone(), node, conn, rkey, r, side.r.clone(), 0));
+    let prog = Arc::new(ReadProgress::default());
+    tokio::spawn(run_writer(ctx.clone(), node, conn, wkey, w, side.w.clone(), prog.clone()));
+    tokio::spawn(run_reader(ctx.clone(), node, conn, rkey, r, side.r.clone(), 0, prog));
 }
 
 /// Identify which connect an accepted stream belongs to by matching the first 8 stream bytes.
@@ -439,15 +462,16 @@ pub fn run(sc: &Scenario) -> RunOutput {
                             match identify(&ctx, &mut r).await {
                                 Ok((k, _)) => {
                                     ctx.log(a.node, aconn, Half::R, AppKind::Note(format!("accept {} paired with connect {}", j, k)), AppRes::Ok(k));
-                                    tokio::spawn(run_writer(ctx.clone(), a.node, k, ctx.sc.stream_key(k, 1), w, a.side.w.clone()));
-                                    tokio::spawn(run_reader(ctx.clone(), a.node, k, ctx.sc.stream_key(k, 0), r, a.side.r.clone(), 8));
+                                    let prog = Arc::new(ReadProgress::default());
+                                    tokio::spawn(run_writer(ctx.clone(), a.node, k, ctx.sc.stream_key(k, 1), w, a.side.w.clone(), prog.clone()));
+                                    tokio::spawn(run_reader(ctx.clone(), a.node, k, ctx.sc.stream_key(k, 0), r, a.side.r.clone(), 8, prog));
                                 }
                                 Err(e) => {
+                                    // The application gives up on a stream it cannot identify.
                                     ctx.log(a.node, aconn, Half::R, AppKind::Note(format!("accept {} unidentified", j)), AppRes::Err(e));
-                                    ctx.task_done();
-                                    ctx.task_done();
-                                    std::future::pending::<()>().await;
                                     drop((r, w));
+                                    ctx.task_done();
+                                    ctx.task_done();
                                 }
                             }
                         }
